@@ -161,14 +161,19 @@ fn resolve_acks(world: &World, sub: &str, acks: &[AckRef]) -> Vec<String> {
         .collect()
 }
 
+/// Ack ids as integers; an id that is not a decimal number is written as -1 (and counted by `bad_acks`).
 fn acks_json(acks: &[String]) -> Value {
     json!(acks
         .iter()
         .map(|a| match a.parse::<u64>() {
-            Ok(v) if v < crate::world::HUGE => json!(v),
-            _ => json!(a),
+            Ok(v) => json!(v.min(crate::world::HUGE)),
+            _ => json!(-1),
         })
         .collect::<Vec<_>>())
+}
+
+fn bad_acks(acks: &[String]) -> usize {
+    acks.iter().filter(|a| a.parse::<u64>().is_err()).count()
 }
 
 fn sub_json(s: &Subscription) -> Value {
@@ -345,7 +350,7 @@ async fn exec_inner(world: Arc<World>, c: usize, spec: CallSpec) {
         }
         CallSpec::Ack { sub, acks } => {
             let ack_ids = resolve_acks(&world, &sub, &acks);
-            world.ev("inv", json!({"c": c, "op": "Ack", "sub": sub, "acks": acks_json(&ack_ids)}));
+            world.ev("inv", json!({"c": c, "op": "Ack", "sub": sub, "acks": acks_json(&ack_ids), "bad": bad_acks(&ack_ids), "raw": ack_ids}));
             match subscriber
                 .acknowledge(AcknowledgeRequest { subscription: sub, ack_ids })
                 .await
@@ -356,7 +361,7 @@ async fn exec_inner(world: Arc<World>, c: usize, spec: CallSpec) {
         }
         CallSpec::ModAck { sub, acks, secs } => {
             let ack_ids = resolve_acks(&world, &sub, &acks);
-            world.ev("inv", json!({"c": c, "op": "ModAck", "sub": sub, "acks": acks_json(&ack_ids), "secs": secs}));
+            world.ev("inv", json!({"c": c, "op": "ModAck", "sub": sub, "acks": acks_json(&ack_ids), "bad": bad_acks(&ack_ids), "raw": ack_ids, "secs": secs}));
             match subscriber
                 .modify_ack_deadline(ModifyAckDeadlineRequest { subscription: sub, ack_ids, ack_deadline_seconds: secs })
                 .await
@@ -449,6 +454,7 @@ impl StreamHandle {
             "ssend",
             json!({"c": self.c, "sub": self.sub, "acks": acks_json(&request.ack_ids),
                    "mods": acks_json(&request.modify_deadline_ack_ids), "secs": request.modify_deadline_seconds,
+                   "bad": bad_acks(&request.ack_ids) + bad_acks(&request.modify_deadline_ack_ids),
                    "rsub": request.subscription, "rmax": request.max_outstanding_messages, "rmaxb": request.max_outstanding_bytes,
                    "open": self.tx.is_some()}),
         );
